@@ -27,8 +27,9 @@ package group
 //@   why observer of the client (the group it has joined, nil if none)
 //@   pure
 //@ iface group.Client.Init
-//@   why stores username and permissions in the client
-//@   modifies nothing
+//@   why stores username and permissions in the client; counted by the ghost integer "inits" of the client object
+//@   modifies ghostint("inits", self)
+//@   ensures counted: ghostint("inits", self) == old(ghostint("inits", self)) + 1
 //@ iface group.Client.Joined
 //@   why queues a notification for the client (non-blocking)
 //@   modifies nothing
@@ -158,6 +159,8 @@ package group
 //@   invariant loop 1 locked: held(g.mu) && g != nil && g.description != nil
 //@   invariant loop 2 range: -1 <= rangeindex$2 && rangeindex$2 < len(clients)
 //@   invariant loop 2 locked: held(g.mu) && g != nil
+//@   -- C10/C11: a refused client is left as it was: its username and permissions are installed only if it is admitted
+//@   ensures refused-untouched: !isnil(result1) ==> ghostint("inits", c) == old(ghostint("inits", c))
 //@   ensures consistent: isnil(result1) == (result0 != nil)
 //@   ensures unlocked: result0 != nil ==> !held(result0.mu)
 //@   -- C10: a non-operator (that is not a system client) is never admitted to a locked group ...
@@ -321,3 +324,16 @@ package group
 //@   ensures bounded: histwf(g)
 //@   -- C15: operators can remove everything
 //@   ensures clear-all: id == "" && userId == "" ==> len(g.history) == 0
+//@
+//@ func (UserError).Error
+//@   safe
+//@   props C12
+//@   modifies nothing
+//@ func (ProtocolError).Error
+//@   safe
+//@   props C12
+//@   modifies nothing
+//@ func (KickError).Error
+//@   safe
+//@   props C12
+//@   modifies nothing
